@@ -93,7 +93,8 @@ class _Rec:
     def Set_Tag(self, nodes, name):
         pass
 
-    def _Set_partitioned_data(self, elements, nodes, rank, ghost):
+    def _Set_partitioned_data(self, elements, nodes, rank=0, ghostElements=()):       # the real signature (defaults included)
+        ghost = ghostElements
         self.data = (np.array(elements, dtype=int), np.array(nodes, dtype=int), int(rank), np.array(ghost, dtype=int))
 
 
